@@ -28,7 +28,7 @@ Init == l = 1 /\ phase = "rest" /\ bad = <<>> /\ cnt = [runs |-> 0, work |-> 0, 
 \* charged) is part of the reported cost but pays for nothing.
 MemOK(e) == e.cost < 0 \/ e.grow <= 0 \/ 3 * e.grow <= 32 * (e.cost - e.fwd + 2300) + 3 * MemSlack
 WorkOK(e) == (e.cost < 0 \/ (e.reads + e.writes) * ReadGas <= e.cost + Slack * ReadGas) /\ MemOK(e)
-Add(c, e) == bad' = IF Len(bad) < 30 THEN Append(bad, [c |-> c, l |-> l, e |-> e]) ELSE bad
+Add(c, e) == bad' = IF Len(bad) < 60 /\ Len(SelectSeq(bad, LAMBDA x : x.c = c)) < 12 THEN Append(bad, [c |-> c, l |-> l, e |-> e]) ELSE bad   \* samples per kind
 
 Next ==
   /\ l <= Len(Trace)
